@@ -194,7 +194,9 @@ func reserveOf(p *ammtypes.Pool, denom string) sdkmath.Int {
 
 func (g *G) recipient(sender *Account) string {
 	if g.Int("rcpt", 0, 3) == 0 {
-		return g.W.Accounts[g.Pick("rcptwho", len(g.W.Accounts))].Addr.String()
+		if r := g.W.Accounts[g.Pick("rcptwho", len(g.W.Accounts))]; !g.Busy[r.Addr.String()] {
+			return r.Addr.String()
+		}
 	}
 	return sender.Addr.String()
 }
@@ -415,6 +417,9 @@ func genSendToPool(g *G) *Op {
 func genSendUser(g *G) *Op {
 	u := g.User()
 	to := g.W.Accounts[g.Pick("to", len(g.W.Accounts))]
+	if g.Busy[to.Addr.String()] {
+		to = u
+	}
 	d := g.W.Scenario.Denoms[g.Pick("denom", len(g.W.Scenario.Denoms))]
 	amt := g.ModestAmount("send", g.S.BalOf(u.Addr.String(), d))
 	return &Op{Signer: u, Kind: "bank.send", Msg: &banktypes.MsgSend{FromAddress: u.Addr.String(), ToAddress: to.Addr.String(), Amount: sdk.NewCoins(sdk.NewCoin(d, amt))}}
